@@ -572,6 +572,16 @@ def binop(I, node, op, l, r):
             I.emit("square", node, of=l)
         if r.tag("dim") and not r.known and l.tag("kind") != "int":
             out.tags["pow_by_extent"] = r.tag("dim")      # x ** (number of columns): a length scale raised to an array extent
+    if isinstance(op, ast.Div) and l.tag("kind") == "ndarray" and not l.known and not r.known:
+        # x / f(x): a value divided by a functional of ITSELF (normalisation); plain data origins only
+        lo = {o for o in l.flat().data if "|" not in o and "@" not in o and "#" not in o}
+        ro = {o for o in r.flat().data if "|" not in o and "@" not in o and "#" not in o}
+        reduced = r.tag("reduced_axis") is not None or r.tag("extremum") is not None or r.tag("norm_ord") is not None
+        if not reduced and l.shape is not None and r.shape is not None and not l.shape.ell and not r.shape.ell:
+            la, ra = l.shape.axes, r.shape.axes
+            reduced = len(ra) < len(la) or any(b_ == () and a_ not in ((), None) for a_, b_ in zip(la[::-1], ra[::-1]))
+        if lo and (lo & ro) and reduced:
+            I.emit("self_quotient", node, origins=frozenset(lo & ro), num=l, den=r)
     if isinstance(op, (ast.Mult, ast.Div)):
         for x_ in (l, r):
             if x_.tag("pow_by_extent"):
@@ -922,7 +932,7 @@ def subscript(I, e, b):
                 basic = False
     out.shape = new_axes if isinstance(new_axes, Shape) else None
     if is_cvx(b):
-        out.tags.update(cvx="expr", atom=("index", [b]), leaves=b.tag("leaves"), index_const=ci)
+        out.tags.update(cvx="expr", atom=("index", [b]), leaves=b.tag("leaves"), index_const=ci, index_val=idx)
         out.fresh = None
     else:
         out.fresh = b.fresh if basic else "FRESH"
